@@ -39,6 +39,11 @@ type CallMon struct {
 	Calls       int // H2 call-start events
 	YieldEvery  int // C19: Gosched every n steps (0 = never)
 	cancelCause context.CancelCauseFunc
+	// CancelAfterPoll: the context becomes done right after its n-th Done()
+	// poll returned "not done" (between two polls, as a timer or another
+	// goroutine would do it); PollsAfter counts the polls that saw it done.
+	CancelAfterPoll int
+	PollsAfter      int
 }
 
 // MCtx is a context carrying a CallMon; its Done/Err are driven by the
@@ -60,7 +65,12 @@ func (c *MCtx) Value(k any) any {
 func (c *MCtx) Done() <-chan struct{} {
 	c.M.Polls++
 	if c.M.cancelled {
+		c.M.PollsAfter++
 		return closedCh
+	}
+	if c.M.CancelAfterPoll > 0 && c.M.Polls == c.M.CancelAfterPoll {
+		// done right after this poll: the poll itself still reports "not done"
+		c.M.flip()
 	}
 	return nil
 }
@@ -82,7 +92,7 @@ func (m *CallMon) Ctx(parent context.Context) context.Context {
 	if parent == nil {
 		parent = context.Background()
 	}
-	if m.CancelAt >= 0 {
+	if m.CancelAt >= 0 || m.CancelAfterPoll > 0 {
 		// The parent carries a caller-supplied cancellation cause, as a
 		// worker pool using context.WithCancelCause would: context.Cause(ctx)
 		// then differs from ctx.Err() - and even wraps exec.ErrVerbose. The
@@ -212,6 +222,11 @@ func InstallHooks() {
 			}
 			if stateSeen[nk][vk][fl].Add(1) == 1 {
 				nodeKindNames[nk].Store(name)
+			}
+		}
+		if RequireMonitoredCtx && monOf(ctx) == nil {
+			if am := activeMon.Load(); am != nil {
+				am.Faults = append(am.Faults, fmt.Sprintf("context-replaced: %T evaluated with a context that is not derived from the caller's", ev.Node))
 			}
 		}
 		if m := monOf(ctx); m != nil {
@@ -405,7 +420,13 @@ func CallMonitored(entry string, p *path.Path, doc any, o Opts, m *CallMon) (out
 	// The zone context wraps the monitored context so both are visible.
 	ctx := m.Ctx(nil)
 	if o.Zone != nil {
-		ctx = types.ContextWithTZ(ctx, o.Zone)
+		// The caller's zone overrides one set further up the context chain
+		// (a request context derived from a server-wide default).
+		ctx = types.ContextWithTZ(types.ContextWithTZ(ctx, decoyZone), o.Zone)
+	}
+	if RequireMonitoredCtx {
+		activeMon.Store(m)
+		defer activeMon.Store(nil)
 	}
 	defer func() {
 		if r := recover(); r != nil {
@@ -440,6 +461,17 @@ func CallMonitored(entry string, p *path.Path, doc any, o Opts, m *CallMon) (out
 	out.Class = ClassOf(out.Err)
 	return out
 }
+
+// decoyZone is never the zone of a case: it is what a call sees if the zone
+// the caller set last is lost.
+var decoyZone = time.FixedZone("decoy", 7*3600+7*60)
+
+// RequireMonitoredCtx (single-threaded checks only): every evaluation step of
+// a monitored call must run with a context derived from the caller's - a step
+// that polls some other context (context.Background, a detached copy) cannot
+// see the caller's cancellation. Reported as hook fault "context-replaced".
+var RequireMonitoredCtx bool
+var activeMon atomic.Pointer[CallMon]
 
 // ParseSafe parses under recover(); a panic is reported in perr.
 func ParseSafe(text string) (p *path.Path, err error, panicked string) {
